@@ -376,6 +376,118 @@ class EmbeddingStatePovm(E2Contract):
         return [eq("canary", np.trace(S.op_from_vec(c4, out["pv"][0])), np.trace(S.op_from_vec(c3, inp["pv"].vecs[0])), "(false) embedding preserves the trace of POVM elements")]
 
 
+class EmbeddingPermutation(E2Contract):
+    """the permutation that places n qutrits inside 2n qubits: a permutation matrix whose first 3^n columns are the isometry V (x) ... (x) V
+    (V: qutrit level k -> k-th computational state of a qubit pair) and whose remaining columns are the unused levels in ascending order"""
+    name = "_permutation_matrix_from_qutrits_to_qubits"
+    prop = "C07"
+    targets = ("quara.objects.qoperation:QOperation._permutation_matrix_from_qutrits_to_qubits",)
+    n_conformance = 1
+    frame = False
+
+    def configs(self, tier):
+        return [1, 2, 3]
+
+    def inputs(self, W, cfg, mk):
+        return dict(probe=mk.real("probe"))
+
+    def run(self, W, cfg, inp):
+        return W.mod("quara.objects.qoperation").QOperation._permutation_matrix_from_qutrits_to_qubits(cfg)
+
+    def post(self, W, cfg, inp, out):
+        import itertools
+        np = W.np
+        n = cfg
+        V1 = np.zeros((4, 3))
+        for k in range(3):
+            V1[k, k] = 1
+        V = V1
+        for _ in range(n - 1):
+            V = np.kron(V, V1)
+        tuples = list(itertools.product(range(4), repeat=n))
+        unused = [i for i, t in enumerate(tuples) if 3 in t]
+        rest = np.zeros((4 ** n, 4 ** n - 3 ** n))
+        for k, i in enumerate(unused):
+            rest[i, k] = 1
+        P = np.asarray(out) if not W.symbolic else out
+        return [eq("shape", list(out.shape), [4 ** n, 4 ** n], "4^n x 4^n"),
+                eq("isometry-columns", out[:, :3 ** n], V, "the first 3^n columns are V (x) ... (x) V"),
+                eq("unused-level-columns", out[:, 3 ** n:], rest, "the remaining columns are the levels containing the unused state, in ascending order"),
+                eq("permutation", out.T @ out, np.eye(4 ** n), "P^T P == I (a permutation matrix: no two columns collide)")]
+
+    def canary(self, W, cfg, inp, out):
+        return [eq("canary", out, 2 * W.np.eye(4 ** cfg), "(false) the permutation is twice the identity")]
+
+
+class EmbeddingTwoQutrits(E2Contract):
+    """embedding a TWO-qutrit state / POVM into four qubits (symbolic in a few entries of the coefficient vectors, the rest fixed rationals)"""
+    name = "embed_qoperation_from_qutrits_to_qubits (two qutrits)"
+    prop = "C07"
+    targets = ("quara.objects.qoperation:QOperation.embed_qoperation_from_qutrits_to_qubits", "quara.objects.qoperation:QOperation._permutation_matrix_from_qutrits_to_qubits",
+               "quara.objects.qoperation:QOperation._calc_matrix_from_qutrits_to_qubits", "quara.objects.state:State._embed_qoperation_from_qutrits_to_qubits",
+               "quara.objects.povm:Povm._embed_qoperation_from_qutrits_to_qubits")
+    n_conformance = 1
+    max_paths = 8
+    frame = True
+    weight = 3.0
+
+    def configs(self, tier):
+        return [("state",), ("povm",)]
+
+    @staticmethod
+    def _setup(W):
+        np = W.np
+        es3 = [esys(W, 0, 3), esys(W, 1, 3)]
+        c9 = W.mod("quara.objects.composite_system").CompositeSystem(es3)
+        eq_ = [esys(W, 10 + k, 2) for k in range(4)]
+        c16 = W.mod("quara.objects.composite_system").CompositeSystem(eq_)
+        V1 = np.zeros((4, 3), dtype=np.complex128)
+        for k in range(3):
+            V1[k, k] = 1
+        return c9, eq_, c16, np.kron(V1, V1)
+
+    @staticmethod
+    def _vec(W, mk, tag, shift):
+        np = W.np
+        free = [0, 1, 7, 13, 40, 44, 80]
+        sym = mk.array(tag, len(free))
+        v = np.array([((5 * k + shift) % 11 - 5) / 16 for k in range(81)], dtype=np.float64)
+        for j, k in enumerate(free):
+            v[k] = sym[j]
+        return v
+
+    def inputs(self, W, cfg, mk):
+        c9, eq_, c16, V = self._setup(W)
+        if cfg[0] == "state":
+            return dict(obj=W.mod("quara.objects.state").State(c9, self._vec(W, mk, "s", 1), is_physicality_required=False))
+        return dict(obj=W.mod("quara.objects.povm").Povm(c9, [self._vec(W, mk, f"p{x}_", 2 + 3 * x) for x in range(2)], is_physicality_required=False))
+
+    def run(self, W, cfg, inp):
+        c9, eq_, c16, V = self._setup(W)
+        Q = W.mod("quara.objects.qoperation").QOperation
+        o2 = Q.embed_qoperation_from_qutrits_to_qubits(inp["obj"], eq_)
+        return dict(arrays=arrays_of(o2), dim=o2.composite_system.dim, kind=type(o2).__name__)
+
+    def post(self, W, cfg, inp, out):
+        np, S = W.np, W.S
+        c9, eq_, c16, V = self._setup(W)
+        Vd = V.conj().T
+        atol = W.mod("quara.settings").Settings.get_atol()
+        cl = [eq("type", out["kind"], "State" if cfg[0] == "state" else "Povm", "the embedded object keeps its type"),
+              eq("on-four-qubits", out["dim"], 16, "the result lives on the four-qubit system")]
+        src = arrays_of(inp["obj"])
+        comp = np.eye(16, dtype=np.complex128) - V @ Vd
+        for x, a in enumerate(src):
+            A = S.op_from_vec(c9, a)
+            img = V @ A @ Vd + (comp / len(src) if cfg[0] == "povm" else 0 * comp)
+            cl.append(true(f"element==isometric-image[{x}]", S.truncated(out["arrays"][x], S.vec_from_op(c16, img), atol),
+                           "embedded == (V (x) V) A (V (x) V)^dagger (+ (1/m)(I - VV^dagger) for POVM elements), up to the documented truncation"))
+        return cl
+
+    def canary(self, W, cfg, inp, out):
+        return [eq("canary", out["arrays"][0][:4], 2 * out["arrays"][0][:4] + 1, "(false)")]
+
+
 def _qutrit_channels(W):
     """concrete non-unitary qutrit channels (Kraus rank >= 2) and instruments, as Kraus operators"""
     np = W.np
